@@ -10,12 +10,12 @@ Lemma solver_options_known :
   [("merge", "n_components", "self.n_modes_precompute"); ("merge", "random_state", "self.random_state");
    ("merge", "k", "self.n_modes_precompute"); ("merge", "random_state", "self.random_state"); ("merge", "solver", "'lobpcg'");
    ("merge", "k", "self.n_modes_precompute"); ("merge", "seed", "self.random_state");
-   ("default", "compute", "self.compute"); ("default", "n_power_iter", "4")] /\
+   ("default", "compute", "self.compute"); ("default", "n_power_iter", "4"); ("default", "iterator", "'QR'")] /\
   svd_solver_options =
   [("merge", "n_components", "self.n_modes_precompute"); ("merge", "random_state", "self.random_state");
    ("merge", "k", "self.n_modes_precompute"); ("merge", "random_state", "self.random_state"); ("merge", "solver", "'lobpcg'");
    ("merge", "k", "self.n_modes_precompute"); ("merge", "seed", "self.random_state");
-   ("default", "compute", "False"); ("default", "n_power_iter", "4")].
+   ("default", "compute", "False"); ("default", "n_power_iter", "4"); ("default", "iterator", "'QR'")].
 Proof. split; reflexivity. Qed.
 
 (* apart from the `compute` option itself, no option value mentions the compute flag: the deferred fit runs the
